@@ -115,8 +115,7 @@ Fixpoint read_pick (fuel : nat) (dest : gval) (r : bytes) (l : list codec) (i : 
 Definition read_aitem (fuel : nat) (ic : codec) (iz : gval) (acc : list gval) (b0 : bytes) : out (list gval) :=
   obind (c_read fuel ic iz b0) (fun v r => Done (acc ++ [v]) r).
 Definition read_mitem (fuel : nat) (vc : codec) (vz : gval) (acc : list (bytes * gval)) (b0 : bytes) : out (list (bytes * gval)) :=
-  obind (string_read b0) (fun k r =>
-    if new_nil vc then Panic else obind (c_read fuel vc vz r) (fun v r' => Done (acc ++ [(k, v)]) r')).
+  obind (string_read b0) (fun k r => obind (c_read fuel vc vz r) (fun v r' => Done (acc ++ [(k, v)]) r')).
 
 Lemma c_read_record_eq fuel fs vs bs :
   c_read fuel (CRecord fs) (VStruct vs) bs = obind (read_fields fuel fs vs bs) (fun vs' r => Done (VStruct vs') r).
